@@ -61,6 +61,9 @@ type mapRangeCls struct {
 	wFields map[types.Object]bool
 	wMaps   map[types.Object]bool
 	why     []string
+	// sortedAfter(v): the first statement after the range statement that mentions the local slice v sorts it by a total order
+	sortedAfter func(v types.Object) bool
+	collected   []string
 }
 
 func (c *mapRangeCls) bad(n ast.Node, msg string) {
@@ -385,6 +388,20 @@ func (c *mapRangeCls) stmt(s ast.Stmt) {
 					continue
 				}
 				if call, ok := r.(*ast.CallExpr); ok && funcFullName(calleeObj(c.info, call)) == "builtin.append" {
+					// collect-then-sort idiom: x = append(x, <pure>) is order-insensitive when x is sorted by a total order
+					// before anything else looks at it (checked by the caller once the whole body is classified)
+					if len(call.Args) >= 2 && !call.Ellipsis.IsValid() && sameExpr(call.Args[0], l) && c.sortedAfter != nil && c.sortedAfter(o) {
+						pureArgs := true
+						for _, a := range call.Args[1:] {
+							if !c.pure(a, nil) {
+								pureArgs = false
+							}
+						}
+						if pureArgs {
+							c.collected = append(c.collected, lx.Name)
+							continue
+						}
+					}
 					c.bad(x, "append to "+lx.Name+" inside a map range: element order follows iteration order")
 					continue
 				}
@@ -533,6 +550,12 @@ func runDet1(m *Model, r *RuleResult) {
 				if c.val != nil {
 					c.locals[c.val] = true
 				}
+				c.sortedAfter = func(v types.Object) bool {
+					if fd == nil || v == nil {
+						return false
+					}
+					return sortedRightAfter(p.TypesInfo, fd, rs, v)
+				}
 				c.collectWrites(rs.Body)
 				for _, st := range rs.Body.List {
 					c.stmt(st)
@@ -540,6 +563,8 @@ func runDet1(m *Model, r *RuleResult) {
 				r.stat("map_ranges", 1)
 				desc := "range over map " + types.ExprString(rs.X) + " in " + fk
 				switch {
+				case len(c.why) == 0 && len(c.collected) > 0:
+					r.add(Obligation{Key: key, Pos: m.Pos(rs.Pos()), Desc: desc + ": elements are collected into " + strings.Join(uniq(c.collected), ", ") + ", which is sorted by a total order before any other use", Verdict: "holds", Control: ctl})
 				case len(c.why) == 0:
 					r.add(Obligation{Key: key, Pos: m.Pos(rs.Pos()), Desc: desc + ": body is a set of commutative updates", Verdict: "holds", Control: ctl})
 				case !reach && !ctl:
@@ -553,6 +578,68 @@ func runDet1(m *Model, r *RuleResult) {
 			})
 		}
 	}
+}
+
+// totalSorts: library sorts whose result is a function of the multiset of elements (total order on a basic element type).
+var totalSorts = map[string]bool{"slices.Sort": true, "sort.Strings": true, "sort.Ints": true, "sort.Float64s": true}
+
+// sortedRightAfter: in the statement list that contains the range statement rs, the first later statement that mentions
+// variable v is a call totalSort(v).
+func sortedRightAfter(info *types.Info, fd *ast.FuncDecl, rs *ast.RangeStmt, v types.Object) bool {
+	var list []ast.Stmt
+	idx := -1
+	ast.Inspect(fd, func(n ast.Node) bool {
+		var l []ast.Stmt
+		switch b := n.(type) {
+		case *ast.BlockStmt:
+			l = b.List
+		case *ast.CaseClause:
+			l = b.Body
+		}
+		for i, st := range l {
+			if st == ast.Stmt(rs) {
+				list, idx = l, i
+			}
+		}
+		return idx < 0
+	})
+	if idx < 0 {
+		return false
+	}
+	mentions := func(n ast.Node) bool {
+		found := false
+		ast.Inspect(n, func(x ast.Node) bool {
+			if id, ok := x.(*ast.Ident); ok && info.Uses[id] == v {
+				found = true
+			}
+			return !found
+		})
+		return found
+	}
+	for _, st := range list[idx+1:] {
+		if !mentions(st) {
+			continue
+		}
+		es, ok := st.(*ast.ExprStmt)
+		if !ok {
+			return false
+		}
+		call, ok := es.X.(*ast.CallExpr)
+		if !ok || len(call.Args) != 1 || !totalSorts[funcFullName(calleeObj(info, call))] {
+			return false
+		}
+		id, ok := call.Args[0].(*ast.Ident)
+		if !ok || info.Uses[id] != v {
+			return false
+		}
+		// the element type must be a basic type, so that equal elements are indistinguishable
+		if sl, ok := v.Type().Underlying().(*types.Slice); ok {
+			_, basic := sl.Elem().Underlying().(*types.Basic)
+			return basic
+		}
+		return false
+	}
+	return false
 }
 
 // ---------- DET-2 ----------
@@ -1055,6 +1142,24 @@ func readOnlyUses(m *Model, v ssa.Value, seen map[ssa.Value]bool, bad *[]string)
 				}
 				*bad = append(*bad, "builtin "+b.Name()+" at "+m.Pos(x.Pos()))
 				continue
+			}
+			// a function of this module: the value stays read-only if the callee only reads the corresponding parameter
+			if cal := c.StaticCallee(); cal != nil && inModule(cal) && len(cal.Blocks) > 0 {
+				args := c.Args
+				followed := false
+				for i, a := range args {
+					if a == v && i < len(cal.Params) {
+						n0 := len(*bad)
+						readOnlyUses(m, cal.Params[i], seen, bad)
+						for j := n0; j < len(*bad); j++ {
+							(*bad)[j] = "in " + funcKey(cal) + " (called at " + m.Pos(x.Pos()) + "): " + (*bad)[j]
+						}
+						followed = true
+					}
+				}
+				if followed {
+					continue
+				}
 			}
 			*bad = append(*bad, "passed to "+calleeFullName(c)+" at "+m.Pos(x.Pos()))
 		case *ssa.MakeInterface:
